@@ -67,7 +67,7 @@ func shortPkg(p string) string {
 var directives = map[string]bool{"func": true, "property": true, "arith": true, "requires": true, "ensures": true,
 	"modifies": true, "may_panic": true, "nopanic": true, "loop": true, "pure": true, "trusted": true,
 	"isa": true, "lanes": true, "crosslane": true, "commutes": true, "assert-at": true, "iface": true,
-	"view": true, "lock": true, "note": true, "fp": true, "spec": true, "lemma": true, "assume-iface": true, "inline": true, "implements": true, "case": true}
+	"view": true, "lock": true, "note": true, "fp": true, "spec": true, "lemma": true, "assume-iface": true, "inline": true, "implements": true, "case": true, "extern": true}
 
 // parseContractFile reads one zz_contracts_verif.go (or .gspec) file.
 func parseContractFile(path, pkgPath string) ([]*Contract, []*SpecFn, error) {
@@ -110,6 +110,17 @@ func parseContractFile(path, pkgPath string) ([]*Contract, []*SpecFn, error) {
 	var cur *Contract
 	for _, rc := range clauses {
 		fail := func(e error) error { return fmt.Errorf("%s:%d: %v", path, rc.line, e) }
+		if rc.dir == "extern" {
+			// extern <interface method> :: reason -- a method of a component outside the verified code: assumed to leave
+			// the heap of the verified packages unchanged and to return an unconstrained value
+			parts := strings.SplitN(rc.text, "::", 2)
+			sf := &SpecFn{Name: "extern:" + strings.TrimSpace(parts[0]), File: path, Line: rc.line}
+			if len(parts) == 2 {
+				sf.Reason = strings.TrimSpace(parts[1])
+			}
+			specs = append(specs, sf)
+			continue
+		}
 		if rc.dir == "spec" || rc.dir == "lemma" {
 			sf, err := parseSpecFn(rc.text)
 			if err != nil {
@@ -307,6 +318,7 @@ type SpecFn struct {
 	Ret    string
 	Body   *Expr
 	Lemma  bool
+	Reason string // extern declarations: why the method is outside the verified code
 	File   string
 	Line   int
 }
@@ -565,6 +577,14 @@ func (p *parser) postfix(e *Expr) *Expr {
 				p.next()
 				p.next()
 				e = &Expr{Op: "allelems", Args: []*Expr{e}}
+				continue
+			}
+			if p.peek().text == "*" && p.toks[p.pos+1].text == "cap" && p.toks[p.pos+2].text == "]" {
+				// x[*cap]: every element of the backing array up to the capacity (what append may write)
+				p.next()
+				p.next()
+				p.next()
+				e = &Expr{Op: "allelems", Name: "cap", Args: []*Expr{e}}
 				continue
 			}
 			var lo *Expr
